@@ -739,29 +739,34 @@ func opsSet(names ...string) map[string]bool {
 // seedObserved: both chains have an observed external height, so batches get real timeouts.
 var seedObserved = []engine.Op{engine.OpN("Deposit", "ethereum", "hub", "hub", 0, 0), engine.OpN("Deposit", "minter", "hub", "hub", 0, 0), engine.OpN("Next", 5)}
 
+// seedRefundBatched: a transfer that originated on ethereum expired on minter; its refund transfer
+// (module-created, tx hash "#") now sits in an ethereum batch at height 4.
+var seedRefundBatched = []engine.Op{engine.OpN("Next", 5), engine.OpN("Deposit", "ethereum", "hub", "minter", 0, 0), engine.OpN("Next", 3601), engine.OpN("Next", 5)}
+
 func bridgeCfgFor(prop, tier string) (BridgeCfg, engine.Config) {
 	thorough := tier == "thorough"
 	cfg := BridgeCfg{Prop: prop, Tokens: stdTokens(18), Powers: []int64{10, 10, 10}, Users: 1,
 		Amounts: []int64{1000}, Fees: []int64{7, 50}, DepAmts: []int64{500}, DepFees: []int64{0}, DepDests: []string{"hub"},
 		SendChains: []string{"ethereum", "minter"}, SendDenoms: []string{"hub", "eth"}, DepChains: []string{"ethereum"}, Timeout: 3600}
-	ec := engine.Config{MaxDepth: 5, Deadline: 70 * time.Second, ReplayLeaf: 40}
+	ec := engine.Config{MaxDepth: 4, Deadline: 70 * time.Second, ReplayLeaf: 40}
 	if thorough {
 		ec = engine.Config{MaxDepth: 7, Deadline: 15 * time.Minute, ReplayLeaf: 300}
 	}
 	switch prop {
 	case "C04":
 		cfg.Ops = opsSet("Next", "Send", "Cancel", "ReqBatch", "Exec", "Deposit", "ExtAdvance", "NextTimeout")
-		cfg.Seeds = [][]engine.Op{{}, seedObserved}
+		cfg.Seeds = [][]engine.Op{{}, seedObserved, seedRefundBatched}
 	case "C10":
 		cfg.Ops = opsSet("Next", "Send", "ReqBatch")
 		cfg.Fees = []int64{7, 7, 50}
 		cfg.Users = 1
-		ec.MaxDepth = 6
+		ec.MaxDepth = 5
 		if thorough {
 			ec.MaxDepth = 8
 		}
 	case "C12":
-		cfg.Ops = opsSet("Next", "Send", "Cancel", "CancelWrongChain", "ReqBatch", "Deposit", "NextTimeout", "NextAtTimeout")
+		cfg.Ops = opsSet("Next", "Send", "Cancel", "CancelWrongChain", "ReqBatch", "Deposit", "NextTimeout", "NextAtTimeout", "ExtAdvance")
+		cfg.Seeds = [][]engine.Op{{}, seedRefundBatched}
 		cfg.Users = 2
 		cfg.Fees = []int64{7}
 		cfg.SendDenoms = []string{"hub"}
@@ -775,6 +780,9 @@ func bridgeCfgFor(prop, tier string) (BridgeCfg, engine.Config) {
 		cfg.Fees = []int64{7}
 		cfg.DepChains = []string{"ethereum", "bsc"}
 		cfg.Seeds = [][]engine.Op{seedObserved}
+		if !thorough {
+			ec.MaxDepth = 5
+		}
 	case "C01":
 		cfg.Ops = opsSet("Next", "Send", "Cancel", "ReqBatch", "Exec", "Deposit", "ExtAdvance", "NextTimeout", "ColdStorage")
 		cfg.DepDests = []string{"hub", "minter", "ethereum"}
